@@ -105,11 +105,21 @@ def build_T10a(tree):
     iff = loop.body[0] if loop.body and isinstance(loop.body[0], ast.If) else None
     if iff is None or ''.join(ast.unparse(iff.test).split()) != 'len(tuple_index)>d':
         raise Unsupported('axis loop no longer starts with `if len(tuple_index) > d`')
-    # what is appended after the if (shared by both branches)
+    # what is appended after the if (shared by both branches): the column factor and the origin index are translated too
     tail = loop.body[1:]
-    tail_txt = [''.join(ast.unparse(s).split()) for s in tail]
-    if tail_txt != ['new_vectors.append(self._affine[:3,d]*step)', 'origin_indices.append(first)']:
-        raise Unsupported(f'tail of the axis loop changed: {tail_txt}')
+    if len(tail) != 2:
+        raise Unsupported('tail of the axis loop is no longer two append statements')
+    vec, org = tail
+    def _arg(st, lst):
+        v = st.value if isinstance(st, ast.Expr) else None
+        if not (isinstance(v, ast.Call) and ast.unparse(v.func) == f'{lst}.append' and len(v.args) == 1):
+            raise Unsupported(f'tail of the axis loop: `{lst}.append(...)` not found')
+        return v.args[0]
+    vec_arg, org_arg = _arg(vec, 'new_vectors'), _arg(org, 'origin_indices')
+    if not (isinstance(vec_arg, ast.BinOp) and isinstance(vec_arg.op, ast.Mult)
+            and ''.join(ast.unparse(vec_arg.left).split()) == 'self._affine[:3,d]'):
+        raise Unsupported('new column is no longer `self._affine[:3, d] * <factor>`')
+    factor_src, origin_src = ast.unparse(vec_arg.right), ast.unparse(org_arg)
     # after the loop: origin through map_indices_to_reference, columns stacked
     after = ''.join(ast.unparse(fn).split())
     for needle in ['origin_index_arr=np.array([origin_indices])', 'new_origin_arr=self.map_indices_to_reference(origin_index_arr).T',
@@ -127,7 +137,7 @@ def build_T10a(tree):
     blk = [tr.visit(s) for s in blk]
     if tr.count['new_shape'] != 1:
         raise Unsupported('indexed branch does not append exactly once to new_shape')
-    blk.append(ast.parse('return (first, step, new_shape__item)').body[0])
+    blk.append(ast.parse(f'return ({origin_src}, {factor_src}, new_shape__item)').body[0])
     for s in blk:
         ast.fix_missing_locations(s)
     t1 = translate_block(blk, 'getitemAxisItem', [('first', 'int'), ('last', 'int'), ('step', 'int')], {},
@@ -140,7 +150,7 @@ def build_T10a(tree):
     if tr2.count['new_shape'] != 1:
         raise Unsupported('unindexed branch does not append exactly once to new_shape')
     blk2 = [s for s in blk2 if not (isinstance(s, ast.Assign) and ast.unparse(s.targets[0]) == 'index_item')]
-    blk2.append(ast.parse('return (first, step, new_shape__item)').body[0])
+    blk2.append(ast.parse(f'return ({origin_src}, {factor_src}, new_shape__item)').body[0])
     for s in blk2:
         ast.fix_missing_locations(s)
     t2 = translate_block(blk2, 'getitemAxisNone', [('n', 'int')], {},
@@ -293,3 +303,44 @@ def build_T9d(tree):
 
 
 TARGETS['T9d'] = {'file': 'volume.py', 'build': build_T9d}
+
+
+def build_T9e(tree):
+    """pad: origin offset per axis (`_prepare_pad_width`) and new size per axis (`VolumeGeometry.pad`)"""
+    fn = find_func(tree, '_VolumeBase._prepare_pad_width')
+    comp = None
+    for node in ast.walk(fn):
+        if isinstance(node, ast.Assign) and ast.unparse(node.targets[0]) == 'origin_offset' and isinstance(node.value, ast.ListComp):
+            comp = node.value
+    if comp is None or len(comp.generators) != 1 or ast.unparse(comp.generators[0].target) != 'p' \
+            or ast.unparse(comp.generators[0].iter) != 'full_pad_width' or comp.generators[0].ifs:
+        raise Unsupported('`origin_offset = [... for p in full_pad_width]` not found in _prepare_pad_width')
+    rest = ''.join(ast.unparse(fn).split())
+    for needle in ['new_affine=_translate_affine_matrix(self.affine,origin_offset)', 'return(new_affine,full_pad_width)']:
+        if needle not in rest:
+            raise Unsupported(f'_prepare_pad_width: expected `{needle}` not found')
+    ren = _Rename({'p[0]': 'before', 'p[1]': 'after'})
+    b1 = [ast.Return(value=ren.visit(ast.parse(ast.unparse(comp.elt), mode='eval').body))]
+    fn2 = find_func(tree, 'VolumeGeometry.pad')
+    comp2 = None
+    for node in ast.walk(fn2):
+        if isinstance(node, ast.Assign) and ast.unparse(node.targets[0]) == 'new_shape' and isinstance(node.value, ast.ListComp):
+            comp2 = node.value
+    if comp2 is None or len(comp2.generators) != 1 or ast.unparse(comp2.generators[0].target) != '(d, p)' \
+            or ast.unparse(comp2.generators[0].iter) != 'zip(self.spatial_shape, full_pad_width)' or comp2.generators[0].ifs:
+        raise Unsupported('`new_shape = [... for d, p in zip(self.spatial_shape, full_pad_width)]` not found in VolumeGeometry.pad')
+    rest2 = ''.join(ast.unparse(fn2).split())
+    if 'new_affine,full_pad_width=self._prepare_pad_width(pad_width)' not in rest2 or 'spatial_shape=new_shape,affine=new_affine' not in rest2:
+        raise Unsupported('VolumeGeometry.pad no longer builds the result from _prepare_pad_width / new_shape')
+    b2 = [ast.Return(value=_Rename({'p[0]': 'before', 'p[1]': 'after'}).visit(ast.parse(ast.unparse(comp2.elt), mode='eval').body))]
+    for st in b1 + b2:
+        ast.fix_missing_locations(st)
+    t1 = translate_block(b1, 'padOriginOffset', [('before', 'int'), ('after', 'int')], {},
+                         doc='`_prepare_pad_width`: element of `origin_offset` for an axis padded with (before, after); the new '
+                             'origin is `_translate_affine_matrix(self.affine, origin_offset)` = affine at that index offset')
+    t2 = translate_block(b2, 'padNewSize', [('d', 'int'), ('before', 'int'), ('after', 'int')], {},
+                         doc='`VolumeGeometry.pad`: new size of an axis of size d padded with (before, after)')
+    return t1 + '\n\n' + t2, span_sha(b1 + b2)
+
+
+TARGETS['T9e'] = {'file': 'volume.py', 'build': build_T9e}
